@@ -301,6 +301,8 @@ BINDING_SRC = """
 def main({PARAMS}):
     f = schedule.device_fn(kA, [0, 1], [0])
     g = schedule.device_fn(kB, [0], [0, 1])
+    h = schedule.device_fn(kA, [0, 1], [1])
+    e = schedule.device_fn(kA, [1, 0], [0])
     f({X}, {Y})
     f(b={X}, a={Y})
     f(a={X}, b={Y})
@@ -315,11 +317,16 @@ def main({PARAMS}):
         f(a={Y}, b={X})
     schedule.reverse(f)(b={X}, a={Y})
     schedule.reverse(f)({X}, {Y})
+    h({X}, {Y})
+    e({X}, {Y})
+    schedule.reverse(h)({X}, {Y})
 """
 # (kernel, a, b, reversed) per call, as the SOURCE says; X = 1.0, Y = 2.0
 BINDING_WANT = [("A", 1.0, 2.0, False), ("A", 2.0, 1.0, False), ("A", 1.0, 2.0, False), ("B", 1.0, 2.0, False), ("B", 2.0, 1.0, False),
                 [("A", 1.0, 2.0, False), ("B", 2.0, 1.0, False), ("A", 2.0, 1.0, False), ("B", 1.0, 2.0, False), ("A", 2.0, 1.0, False)],
-                ("A", 2.0, 1.0, True), ("A", 1.0, 2.0, True)]
+                ("A", 2.0, 1.0, True), ("A", 1.0, 2.0, True),
+                # the SAME kernel with the same x tones and other y tones / the x tones in another order
+                ("A", 1.0, 2.0, False, ([0, 1], [1])), ("A", 1.0, 2.0, False, ([1, 0], [0])), ("A", 1.0, 2.0, True, ([0, 1], [1]))]
 
 
 def binding_cases(ctx):
@@ -336,9 +343,10 @@ def binding_cases(ctx):
     tones = {"A": ([0, 1], [0]), "B": ([0], [0, 1])}
 
     def path_of(c):
-        kern, a, b, rev = c
+        kern, a, b, rev = c[:4]
+        xt, yt = c[4] if len(c) > 4 else tones[kern]
         p = TraceInterpreter(S).run_trace({"A": kA, "B": kB}[kern], (a, b), {})
-        return Path(ilist.IList(tones[kern][0]), ilist.IList(tones[kern][1]), reverse_path(p) if rev else p)
+        return Path(ilist.IList(xt), ilist.IList(yt), reverse_path(p) if rev else p)
     events._register()
     want_evs = [("play", events.Group("parallel", tuple(path_of(c) for c in w)) if isinstance(w, list) else path_of(w)) for w in BINDING_WANT]
     want = events.events_text(want_evs, tc.PosTable())
